@@ -9,6 +9,9 @@
 -/
 import PercevalModel.Lemmas.C11
 import PercevalModel.Lemmas.C11Lists
+import PercevalModel.Lemmas.C11More
+import PercevalModel.Lemmas.C11Adj
+import PercevalModel.Lemmas.C11Copy
 import PercevalModel.Props.C01
 import PercevalModel.Num.GQ
 
@@ -333,9 +336,9 @@ theorem simplify_perm_sound {P : Type} [CommRing R] (ι : Interp P R) {m : ℕ} 
 
 /-- **one iteration of `simplify`** (append the component, run `_simplify_comp`) leaves the matrix
 unchanged, whatever the rounding of the drop test and whatever valid choice of the heuristic.
-NOT PROVED (`simplify_perm_choice_valid_partial` of the design): that the heuristic
-`_generate_compatible_perm` always *produces* a valid choice; the correspondence evaluates
-`validChoice` on every choice it observes. -/
+NOT PROVED: that the heuristic `_generate_compatible_perm` always *produces* a valid choice (a
+sufficient condition is `simplify_perm_choice_valid_partial` in section G); the correspondence
+evaluates `validChoice` on every choice it observes. -/
 theorem simplify_step_sound {P : Type} [CommRing R] [PhaseAlg P] (ι : Interp P R)
     (hadd : ∀ a b : P, ι.e (PhaseAlg.add a b) = ι.e a * ι.e b)
     (hdrop : ∀ a : P, PhaseAlg.canDrop a = true → ι.e a = 1)
@@ -376,5 +379,243 @@ theorem ps_fuse [CommRing R] (z w : R) :
       (Matrix.of fun (_ _ : Fin 1) => (1 : R)) = 1 := by
   constructor <;> ext i j <;>
     simp [Matrix.mul_apply, Matrix.one_apply, Subsingleton.elim i j, mul_comm]
+
+/-! ## E. the whole loop of `simplify`
+
+`simplifyRun fixedAdj m display steps acc` (`Lemmas/C11More.lean`) is the `for r, c in circuit` loop:
+a plain fold of `simplifyStep` over `steps`, each holding the component appended, the floating-point
+outcome of the drop test and the heuristic's unravelling permutation of that iteration; the run is
+`none` as soon as an invalid permutation is offered. -/
+
+/-- **well-formedness is preserved by one iteration**: from a component list that fits the `m` modes
+and a new component that fits, every branch of `_simplify_comp` (phase-shifter walk-back, fusion and
+drop; single, successive and non-successive `PERM` branches with any valid choice, `_move_comp`
+included) returns a component list that fits the `m` modes. -/
+theorem simplify_step_wf {P : Type} [PhaseAlg P] (ι : Interp P R) {m : ℕ}
+    (fixedAdj display wantDrop : Bool) (choice : Option (List ℕ))
+    (comps : List (Item P)) (it : Item P) (l : List (Item P))
+    (hw : ∀ x ∈ comps, x.WF ι m) (hit : it.WF ι m) (hpos : 0 < it.w)
+    (h : simplifyStep fixedAdj m display wantDrop choice comps it = some l) :
+    ∀ x ∈ l, x.WF ι m :=
+  simplifyStep_wf ι fixedAdj display wantDrop choice comps it l hw hit hpos h
+
+/-- **`simplify` keeps the matrix of the circuit** — the fold theorem: for every input circuit
+(components that fit the `m` modes, of positive width), every rounding outcome of every drop test and
+every sequence of valid choices of the heuristic, in both `display` modes and with either version of
+the adjacency bookkeeping: the simplified component list fits the `m` modes and its matrix is the
+matrix of the input. -/
+theorem simplify_fold_sound {P : Type} [CommRing R] [PhaseAlg P] (ι : Interp P R)
+    (hadd : ∀ a b : P, ι.e (PhaseAlg.add a b) = ι.e a * ι.e b)
+    (hdrop : ∀ a : P, PhaseAlg.canDrop a = true → ι.e a = 1)
+    {m : ℕ} (fixedAdj display : Bool) (steps : List (Iter P)) (l : List (Item P))
+    (hs : ∀ s ∈ steps, s.it.WF ι m ∧ 0 < s.it.w)
+    (h : simplifyRun fixedAdj m display steps [] = some l) :
+    (∀ x ∈ l, x.WF ι m) ∧ listU ι m l = listU ι m (steps.map (·.it)) := by
+  have := simplifyRun_sound ι hadd hdrop fixedAdj display steps [] l hs (by simp) h
+  simpa using this
+
+/-- the loop is defined (never stops on a malformed state) as long as no invalid unravelling
+permutation is offered; in particular with the unravelling switched off it is defined on EVERY input
+— so `simplify_fold_sound` is not vacuous for any circuit. -/
+theorem simplify_fold_defined {P : Type} [PhaseAlg P] (fixedAdj : Bool) (m : ℕ) (display : Bool)
+    (steps : List (Iter P)) (hs : ∀ s ∈ steps, s.choice = none) :
+    (simplifyRun fixedAdj m display steps []).isSome = true :=
+  simplifyRun_keep_isSome fixedAdj m display steps [] hs
+
+/-- one iteration is defined whenever the choice offered (if any) is valid for the in-between
+components -/
+theorem simplify_step_defined {P : Type} [PhaseAlg P] (fixedAdj : Bool) (m : ℕ)
+    (display wantDrop : Bool) (choice : Option (List ℕ)) (comps : List (Item P)) (it : Item P)
+    (hch : ∀ ρ, choice = some ρ → ∀ i, lastPermIdx comps = some i →
+      validChoice m (comps.drop (i + 1)) ρ = true) :
+    (simplifyStep fixedAdj m display wantDrop choice comps it).isSome = true :=
+  simplifyStep_isSome fixedAdj m display wantDrop choice comps it hch
+
+/-- non-vacuity of `simplify_fold_sound` with a real unravelling: `PERM([1,2,0]) ; other on (1,2) ;
+PS on 0 ; PERM([2,0,1])`, the last iteration unravelled with the valid choice `[1,2,0]` -/
+def exSteps : List (Iter GQ) :=
+  [⟨⟨0, 3, .perm [1, 2, 0]⟩, false, none⟩, ⟨⟨1, 2, .other 0⟩, false, none⟩,
+   ⟨⟨0, 1, .ps GQ.I⟩, false, none⟩, ⟨⟨0, 3, .perm [2, 0, 1]⟩, false, some [1, 2, 0]⟩]
+
+example : (∀ s ∈ exSteps, s.it.WF exInterp 3 ∧ 0 < s.it.w) ∧
+    (simplifyRun true 3 false exSteps []).isSome = true := by
+  refine ⟨?_, by decide +kernel⟩
+  intro s hs
+  simp only [exSteps, List.mem_cons, List.not_mem_nil, or_false] at hs
+  rcases hs with rfl | rfl | rfl | rfl <;> simp [Item.WF, exInterp] <;> decide
+
+/-! ## F. `copy`
+
+Original and copy live in one heap of leaf objects (`Lemmas/C11Copy.lean`): `rc.copy` is the circuit
+`Circuit.copy()` returns — one fresh object per occurrence, appended to the heap. -/
+
+/-- **`Circuit.copy()` denotes the same circuit**: the same component list, hence the same matrix;
+every object it holds is fresh (allocated by the copy) and none is held twice. -/
+theorem copy_matrix [CommRing R] (I : R) (rc : RefCirc R) :
+    rc.copy.its = rc.its ∧ rc.copy.U I = rc.U I ∧
+      (∀ it ∈ rc.copy.items, rc.store.length ≤ it.2 ∧ it.2 < rc.copy.store.length) ∧
+      (rc.copy.items.map Prod.snd).Nodup := by
+  have e : rc.copy.its = rc.its :=
+    copy_build_frame rc.store rc.items _ (fun _ _ _ => rfl)
+  refine ⟨e, ?_, copyItems_fresh rc.store rc.items, copyItems_nodup rc.store rc.items⟩
+  show rc.copy.its.U I rc.m = rc.its.U I rc.m
+  rw [e]
+
+/-- **copy and original are independent**: whatever happens afterwards to the objects of the copy
+(any heap `st'` that still holds the original's objects) the original denotes the same circuit, and
+whatever happens to the objects of the original the copy denotes the same circuit. -/
+theorem copy_independent (rc : RefCirc R) (hr : ∀ it ∈ rc.items, it.2 < rc.store.length)
+    (st' : List (Leaf R)) :
+    ((∀ j, j < rc.store.length → st'.getD j (.barrier 0) = rc.store.getD j (.barrier 0)) →
+        (rc.withStore st').its = rc.its) ∧
+      ((∀ j, rc.store.length ≤ j → j < rc.copy.store.length →
+          st'.getD j (.barrier 0) = rc.copy.store.getD j (.barrier 0)) →
+        (rc.copy.withStore st').its = rc.its) :=
+  ⟨fun h => orig_build_frame rc.store rc.items st' hr h,
+   fun h => copy_build_frame rc.store rc.items st' h⟩
+
+/-- mutating one object of the copy in place (`copy._components[k][1].param(...).set_value(...)`,
+modelled as an arbitrary update `f` of the object at any heap address `j` the copy owns) does not
+change the original; mutating an object of the original does not change the copy -/
+theorem copy_mutation (rc : RefCirc R) (hr : ∀ it ∈ rc.items, it.2 < rc.store.length)
+    (j : ℕ) (f : Leaf R → Leaf R) :
+    (rc.store.length ≤ j → (rc.withStore (rc.copy.store.modify j f)).its = rc.its) ∧
+      (j < rc.store.length → (rc.copy.withStore (rc.copy.store.modify j f)).its = rc.its) := by
+  constructor
+  · intro hj
+    refine (copy_independent rc hr _).1 (fun k hk => ?_)
+    rw [modify_getD_ne _ _ _ _ _ (by omega)]
+    exact copyItems_store_old rc.store rc.items k hk _
+  · intro hj
+    refine (copy_independent rc hr _).2 (fun k hk _ => ?_)
+    exact modify_getD_ne _ _ _ _ _ (by omega)
+
+/-- `cp = c.copy(); cp.inverse(v, h)` (repaired in-place inverse): the copy is inverted, the original
+still denotes the same circuit; and the other way round. -/
+theorem copy_then_inverse [Neg R] [Star R] (v h : Bool) (rc : RefCirc R)
+    (hr : ∀ it ∈ rc.items, it.2 < rc.store.length) :
+    (rc.copy.invFixed true v h).deref = rc.deref.inv true v h ∧
+      (rc.withStore (rc.copy.invFixed true v h).store).its = rc.its ∧
+      (rc.copy.withStore ((rc.withStore rc.copy.store).invFixed true v h).store).its = rc.its := by
+  refine ⟨?_, ?_, ?_⟩
+  · rw [refs_inverse_fixed v h rc.copy (fun it hit => (copyItems_fresh rc.store rc.items it hit).2)]
+    have e : rc.copy.its = rc.its := copy_build_frame rc.store rc.items _ (fun _ _ _ => rfl)
+    simp only [RefCirc.deref, e]
+    rfl
+  · refine (copy_independent rc hr _).1 (fun k hk => ?_)
+    rw [invFixed_store_other true v h rc.copy k ?_ _]
+    · exact copyItems_store_old rc.store rc.items k hk _
+    · intro hmem
+      obtain ⟨it, hit, rfl⟩ := List.mem_map.1 hmem
+      have := (copyItems_fresh rc.store rc.items it hit).1
+      omega
+  · refine (copy_independent rc hr _).2 (fun k hk _ => ?_)
+    refine invFixed_store_other true v h (rc.withStore rc.copy.store) k ?_ _
+    intro hmem
+    obtain ⟨it, hit, rfl⟩ := List.mem_map.1 hmem
+    have := hr it hit
+    omega
+
+/-- non-vacuity: the circuit `Circuit(2) // b // b` holding one object twice; its copy holds two fresh
+objects (addresses 1 and 2) -/
+example : (∀ it ∈ exShared.items, it.2 < exShared.store.length) ∧
+    exShared.copy.items = [(0, 1), (0, 2)] ∧ exShared.copy.store.length = 3 := by decide
+
+/-! ## G. the adjacency bookkeeping and the heuristic's choice
+
+`adjOf true m inComps` is the list of groups of dependent modes `_simplify_perm` computes with the
+repaired `_update_adjacent` and hands to `_generate_compatible_perm` (`Lemmas/C11Adj.lean`). -/
+
+/-- **repaired `_update_adjacent`**: after the bookkeeping loop every in-between component lies inside
+ONE group of dependent modes (any components: overlapping, nested, any order). -/
+theorem update_adjacent_groups {P : Type} (m : ℕ) (inComps : List (Item P)) :
+    ∀ it ∈ inComps, ∃ g ∈ adjOf true m inComps, ∀ j < it.w, it.r0 + j ∈ g :=
+  adjOf_covered m inComps
+
+/-- the old `_update_adjacent` loses modes: after the components on modes (1,2) and (0,1) of a 4-mode
+circuit, mode 2 is in no group at all (the regression witness of `fixes/C10-simplify-adjacent.diff`) -/
+theorem update_adjacent_fails_on_old_code :
+    let inComps : List (Item Unit) := [⟨1, 2, .other 0⟩, ⟨0, 2, .other 1⟩]
+    adjOf false 4 inComps = [[0, 1], [3]] ∧ ¬ Covered (adjOf false 4 inComps) 1 2 ∧
+      Covered (adjOf true 4 inComps) 1 2 := by
+  decide
+
+/-- **sufficient condition for a valid choice**: a permutation of the `m` modes whose inverse sends
+consecutive modes of a same group (of the repaired bookkeeping) to consecutive places is a valid
+unravelling permutation. -/
+theorem valid_choice_of_groups {P : Type} {m : ℕ} (inComps : List (Item P)) (ρ : List ℕ)
+    (hlen : ρ.length = m) (hperm : isPerm ρ = true)
+    (hadj : KeepsGroups m (adjOf true m inComps) ρ) :
+    validChoice m inComps ρ = true :=
+  validChoice_of_groups inComps ρ hlen hperm hadj
+
+/-- **what `_update_perm` does, as a sufficient condition**: a permutation of the `m` modes in which
+every group of dependent modes is written as a sorted block into consecutive slots
+(`perm[slice_min:slice_max] = modes`) is a valid unravelling permutation. -/
+theorem valid_choice_of_blocks {P : Type} {m : ℕ} (inComps : List (Item P)) (ρ : List ℕ)
+    (hρ : IsPermList m ρ) (hb : ∀ g ∈ adjOf true m inComps, BlockPlaced ρ g) :
+    validChoice m inComps ρ = true := by
+  refine validChoice_of_groups inComps ρ hρ.1 ?_ (keepsGroups_of_blocks hρ hb)
+  simp only [isPerm, List.all_eq_true, List.mem_range, List.contains_iff_mem]
+  intro j hj
+  exact isPermList_mem hρ (by rw [← hρ.1]; exact hj)
+
+/-- non-vacuity: in `[1,2,0]` the group `{1,2}` is written from slot 0, the group `{0}` at slot 2 -/
+example : IsPermList 3 [1, 2, 0] ∧
+    ∀ g ∈ adjOf true 3 (exComps.drop 1), BlockPlaced [1, 2, 0] g := by
+  refine ⟨by decide, ?_⟩
+  have e : adjOf true 3 (exComps.drop 1) = [[0, 0], [1, 2, 1, 2]] := by decide
+  rw [e]
+  intro g hg
+  simp only [List.mem_cons, List.not_mem_nil, or_false] at hg
+  rcases hg with rfl | rfl
+  · exact ⟨2, [0], by decide, by decide, by decide, by decide⟩
+  · exact ⟨0, [1, 2], by decide, by decide, by decide, by decide⟩
+
+/-- FULL STATEMENT WANTED (`simplify_perm_choice_valid`): for every component list, the
+`left_right_perm` returned by `_generate_compatible_perm(invert_permutation(previous_c_list),
+adjacent_modes)` satisfies `validChoice`.
+PROVED (`…_partial`): with the repaired bookkeeping, `_simplify_perm` accepts every permutation of the
+modes that keeps the consecutive modes of each group on consecutive places, and (by
+`simplify_perm_sound`, `simplify_step_wf`) the result then has the same matrix and fits the circuit.
+MISSING: that the heuristic's output has this property (`valid_choice_of_blocks` reduces it to:
+the output is a permutation in which every group sits as a sorted block) — `_update_perm` writes every
+group (a sorted list) into consecutive slots of `left_right_perm`, later only shifts whole runs of
+filled slots, and every slot is filled exactly once; `_generate_compatible_perm` / `_update_perm` /
+`_search_empty_space` are not modelled.  The correspondence evaluates `validChoice` on every choice it observes. -/
+theorem simplify_perm_choice_valid_partial {P : Type} [CommRing R] (ι : Interp P R) {m : ℕ}
+    (hm : 0 < m) (display : Bool) (comps : List (Item P)) (r0 : ℕ) (σ ρ : List ℕ)
+    (hw : ∀ it ∈ comps, it.WF ι m) (hσ : IsPermList σ.length σ) (h0 : 0 < σ.length)
+    (hfit : r0 + σ.length ≤ m) (hlen : ρ.length = m) (hperm : isPerm ρ = true)
+    (hadj : ∀ i, lastPermIdx comps = some i →
+      KeepsGroups m (adjOf true m (comps.drop (i + 1))) ρ) :
+    ∃ l, simplifyPerm true m display comps r0 σ (some ρ) = some l ∧
+      (∀ x ∈ l, x.WF ι m) ∧
+      listU ι m l = listU ι m (comps ++ [⟨r0, σ.length, .perm σ⟩]) := by
+  have hsome := simplifyPerm_isSome_of_groups m display comps r0 σ ρ hlen hperm hadj
+  obtain ⟨l, hl⟩ := Option.isSome_iff_exists.1 hsome
+  exact ⟨l, hl, simplifyPerm_wf ι hm true display comps r0 σ (some ρ) l hw hσ h0 hfit hl,
+    simplify_perm_sound' ι hm true display comps r0 σ (some ρ) l hw hσ h0 hfit hl⟩
+
+/-- non-vacuity: the choice `[1,2,0]` of the example keeps the groups `{0}`, `{1,2}` -/
+example : ([1, 2, 0] : List ℕ).length = 3 ∧ isPerm [1, 2, 0] = true ∧
+    (∀ i, lastPermIdx exComps = some i →
+      KeepsGroups 3 (adjOf true 3 (exComps.drop (i + 1))) [1, 2, 0]) := by
+  refine ⟨rfl, by decide, ?_⟩
+  intro i hi
+  have : i = 0 := by
+    have h0 : lastPermIdx exComps = some 0 := by decide
+    rw [h0] at hi; exact (Option.some.inj hi).symm
+  subst this
+  decide
+
+/-! ## Still NOT proved (validated by the correspondence only)
+
+* that `_generate_compatible_perm` returns a permutation in which every group is `BlockPlaced`
+  (hence `KeepsGroups`, hence `validChoice`: `valid_choice_of_blocks`,
+  `simplify_perm_choice_valid_partial`): the heuristic is not modelled;
+* `Processor.copy()` and deep copies of *nested* circuits with object identity (the reference model is
+  flat: a heap of leaf objects); `copy(subs=…)` with symbolic parameters;
+* model = code (differential testing on every run). -/
 
 end PM.C11
